@@ -134,8 +134,13 @@ def gen_one(rng, tier):
         # one listener raises once, during one of the first assignments
         raiser = [rng.randrange(len(listeners)),
                   rng.randrange(max(1, len(ops) // 2))]
+    quitter = None
+    if listeners and not chains and raiser is None and rng.random() < 0.2:
+        # one listener unsubscribes itself while it is being notified
+        quitter = [rng.randrange(len(listeners)),
+                   rng.randrange(max(1, len(ops) // 2))]
     return {'transforms': transforms, 'listeners': listeners, 'ops': ops,
-            'chains': chains, 'raiser': raiser,
+            'chains': chains, 'raiser': raiser, 'quitter': quitter,
             # value-like listeners: distinct listeners that compare and hash
             # equal ('unhashable': __eq__ without __hash__)
             # ('falsy', 'empty': listeners that evaluate false)
@@ -179,12 +184,20 @@ def run_case(case):
     log = []
 
     armed = [None, None]
+    quitting = [None]
+    gone = set()        # (listener, id(transform)) pairs that unsubscribed
 
     def make_listener(uid, events):
         ns = {}
         for prop in events:
             def cb(self, value, _prop=prop):
                 log.append((self.uid, _prop, value))
+                if quitting[0] == self.uid:
+                    # (once) a one-shot listener: it unsubscribes itself
+                    # from the transform that is notifying it
+                    quitting[0] = None
+                    current[0].remove_handler(self)
+                    gone.add((self.uid, id(current[0])))
                 if armed[0] == self.uid:
                     # (once) a listener fails; the program catches that
                     armed[0] = None
@@ -298,6 +311,10 @@ def run_case(case):
         raiser = case.get('raiser')
         if raiser and raiser[1] == at:
             armed[0] = raiser[0]
+        quitter = case.get('quitter')
+        gone_before = set(gone)
+        if quitter and quitter[1] == at:
+            quitting[0] = quitter[0]
         try:
             if aug:
                 assigned = t.rotation + value
@@ -324,6 +341,7 @@ def run_case(case):
             continue
         finally:
             armed[0] = None
+            quitting[0] = None
         back = getattr(t, prop)
         res.stats['assignments'] += 1
         res.tags['prop_dim'].add(f'{prop}/{dim}')
@@ -440,7 +458,8 @@ def run_case(case):
         # who was told what
         expected_listeners = collections_counter(
             uid for uid, spec in enumerate(case['listeners'])
-            if ti in spec['on'] and prop in spec['events'])
+            if ti in spec['on'] and prop in spec['events']
+            and (uid, id(t)) not in gone_before)
         got = collections_counter(uid for uid, p, v in log if p == prop)
         for uid, p, v in log:
             res.stats['notifications_checked'] += 1
